@@ -83,6 +83,7 @@ func vsHex(b []byte) string {
 func vsMD5(b []byte) string { return fmt.Sprintf("%x", md5.Sum(b)) }
 
 type vsEnv struct {
+	heldReal                         chan *finalFile // the validators' real input while validation is held back (op VH)
 	root, stageDir, finalDir, logDir string
 	st                               *Stage
 	logger                           *log.FileIO
@@ -241,6 +242,8 @@ func verifStageCase(tmp string, caseNo int, ops []vsOp) string {
 			for _, p := range op.parts {
 				fmt.Fprintf(&w, " %s %s %s %s %d %d %d", gen.Hex(p.name), gen.Hex(p.renamed), gen.Hex(p.prev), gen.Hex(p.hash), p.beg, p.end, p.time)
 			}
+		case "VH", "VR":
+			w.WriteString(" " + op.kind)
 		case "SQ":
 			fmt.Fprintf(&w, " SQ %s %d", gen.Hex(op.name), op.num)
 		case "SV":
@@ -285,8 +288,33 @@ func verifStageCase(tmp string, caseNo int, ops []vsOp) string {
 			// the sequential history is deterministic (interleavings with work
 			// in flight are the subject of the concurrent suite)
 			if _, err := os.Stat(filepath.Join(e.stageDir, p.name+partExt)); err != nil {
-				e.settle()
+				if e.heldReal != nil {
+					// validation is held back: wait only until the file stands in the validators' queue
+					for i := 0; i < 200 && len(e.st.validateCh) == 0; i++ {
+						time.Sleep(500 * time.Microsecond)
+					}
+				} else {
+					e.settle()
+				}
 			}
+		case "VH":
+			// the validators are busy (a backlog): from now on complete files queue up unvalidated
+			e.settle()
+			e.heldReal = e.st.validateCh
+			e.st.validateCh = make(chan *finalFile, 100)
+			w.WriteString(" -")
+		case "VR":
+			// ... and now they get to them
+			if e.heldReal != nil {
+				held := e.st.validateCh
+				e.st.validateCh = e.heldReal
+				e.heldReal = nil
+				for len(held) > 0 {
+					e.st.validateCh <- <-held
+				}
+			}
+			e.settle()
+			w.WriteString(" " + e.snapshot())
 		case "ST":
 			e.settle()
 			w.WriteString(" " + e.snapshot())
@@ -672,7 +700,7 @@ func verifStageMatrix(r *gen.Rand) []vsOp {
 // duplicate of a file that is validated and held for its predecessor arrives,
 // then the receiver restarts, then the predecessor arrives (C06, C05)
 // kind < 0: one of the scenarios at random; otherwise the scenario with that number (0 g, 1 f, 2 e, 3 d,
-// 4 c, 5 a, 6 b, 7 h), variant selecting among its main alternatives - the first lines of every run go through
+// 4 c, 5 a, 6 b, 7 h, 8 i), variant selecting among its main alternatives - the first lines of every run go through
 // all of them systematically
 func verifStageMatrix2(r *gen.Rand, kind, variant int) []vsOp {
 	sel := func(k, num, den int) bool {
@@ -711,6 +739,25 @@ func verifStageMatrix2(r *gen.Rand, kind, variant int) []vsOp {
 		recv(f, 0, len(f.content))
 	}
 	names := [][2]string{{"site/data.bin", "site/next.bin"}, {"a", "b"}, {"g.1", "g.2"}, {"d/e/x", "d/y"}}[r.Intn(4)]
+	if sel(8, 1, 9) {
+		// (i) the validators have a backlog: a file is complete but not yet hash-checked when the sender
+		// polls / asks about it; then validation runs (variant 0: the file had been damaged in transit)
+		F := mk(names[0], "", 4+r.Intn(10))
+		data := append([]byte{}, F.content...)
+		if pickN(2) == 0 {
+			data[0] ^= 0x5a
+		}
+		ops = append(ops, vsOp{kind: "VH"})
+		prep(F)
+		ops = append(ops, vsOp{kind: "RC", part: part(F, 0, len(F.content)), data: data},
+			vsOp{kind: "SQ", name: F.name, num: -3600},
+			vsOp{kind: "SV", name: F.name, num: -3600, part: vsPart{hash: F.hash}},
+			vsOp{kind: "RQ", parts: []vsPart{part(F, 0, len(F.content))}},
+			vsOp{kind: "VR"}, vsOp{kind: "SQ", name: F.name, num: -3600})
+		whole(F)
+		ops = append(ops, vsOp{kind: "ST"}, vsOp{kind: "SQ", name: F.name, num: -3600})
+		return ops
+	}
 	if sel(7, 1, 8) {
 		// (h) the cleaner meets a partial that has been stalled for more than a day and belongs to a
 		// version that was NOT delivered: the re-send of a version that failed validation (variant 0),
@@ -1212,9 +1259,9 @@ func TestVerifStage(t *testing.T) {
 			N = gen.EnvInt("VERIF_STAGE_RANDOM", 5000)
 		}
 		for c := 0; c < N; c++ {
-			if c < 96 {
+			if c < 108 {
 				// every directed scenario 12 times, its main alternatives in turn
-				cases = append(cases, verifStageMatrix2(root.Sub(uint64(c)), c%8, c/8))
+				cases = append(cases, verifStageMatrix2(root.Sub(uint64(c)), c%9, c/9))
 				continue
 			}
 			cases = append(cases, verifStageGen(root.Sub(uint64(c))))
